@@ -106,7 +106,26 @@ def hash_once(r, F):
             for b in g.calls_to(r"RawCache::<E, S, I>::shard$"):
                 cnt += 1
                 sl = backslice(g, b.term.args[1], "prov")
-                okk = any(bb == hb for bb, _ in sl.calls) if g is f else bool(sl.upvars & {"hash", "_ref__hash"})
+                if g is f:
+                    okk = any(bb == hb for bb, _ in sl.calls)
+                else:
+                    # the closure's upvar must capture (a borrow of) the one hash computed in the enclosing function
+                    okk = False
+                    cur, ups = g, set(sl.upvars)
+                    for _ in range(4):
+                        srcs = mir.upvar_sources(F, cur)
+                        nxt = set()
+                        for u in ups:
+                            if u in srcs:
+                                par, o = srcs[u]
+                                psl = backslice(par, o, "prov")
+                                if par is f and any(bb == hb for bb, _ in psl.calls):
+                                    okk = True
+                                nxt |= psl.upvars
+                                cur2 = par
+                        if okk or not nxt:
+                            break
+                        cur, ups = cur2, nxt
                 if not okk:
                     bad.append(b.term.ln)
         if name != "insert_with_properties_inner":
